@@ -251,3 +251,24 @@ def to_tla(v):
             return "[" + ", ".join("%s |-> %s" % (k, to_tla(x)) for k, x in v.items()) + "]"
         return "(" + " @@ ".join("%s :> %s" % (to_tla(k), to_tla(x)) for k, x in v.items()) + ")"
     raise TypeError("cannot convert %r" % (v,))
+
+
+def read_dot(path):
+    """Parse `tlc -dump dot,actionlabels` output: returns (nodes{id: state}, edges[(src, dst, action)], initial ids)."""
+    nodes, edges, init = {}, [], []
+    node_re = re.compile(r'^(-?\d+) \[label="((?:[^"\\]|\\.)*)"(,style = filled)?')
+    edge_re = re.compile(r'^(-?\d+) -> (-?\d+) \[label="([^"]*)"')
+    with open(path) as f:
+        for ln in f:
+            ln = ln.rstrip("\n")
+            m = edge_re.match(ln)
+            if m:
+                edges.append((m.group(1), m.group(2), m.group(3)))
+                continue
+            m = node_re.match(ln)
+            if m:
+                txt = m.group(2).replace("\\n", "\n").replace('\\"', '"').replace("\\\\", "\\")
+                nodes[m.group(1)] = _parse_conj(txt.split("\n"))
+                if m.group(3):
+                    init.append(m.group(1))
+    return nodes, edges, init
